@@ -211,3 +211,90 @@ add("C10",
     V("twin-filter-in-helper", "C10", [(PARSER, "        _check_strict_parsing(missing, self.settings)\n        self._set_relative_base()", "        self._strict(missing)\n        self._set_relative_base()"),
                                        (PARSER, "    def _correct_for_time_frame(self, dateobj, tz):", "    def _strict(self, missing):\n        _check_strict_parsing(missing, self.settings)\n\n    def _correct_for_time_frame(self, dateobj, tz):")], "silent"),
     )
+
+# ---------------------------------------------------------------- C01
+STRP = "dateparser/utils/strptime.py"
+add("C01",
+    V("millis-scale-100", "C01", [(DATE, "microsecond=millis * 1000 + micros", "microsecond=millis * 100 + micros")], "fire", "C01.R1"),
+    V("epoch-11-digits", "C01", [(DATE, 'RE_SEARCH_TIMESTAMP = re.compile(r"^(\\d{10})(\\d{3})?(\\d{3})?(?![^.])")', 'RE_SEARCH_TIMESTAMP = re.compile(r"^(\\d{10,11})(\\d{3})?(\\d{3})?(?![^.])")')], "fire", "C01.R1"),
+    V("negative-regex-for-positive", "C01", [(DATE, "    if negative:\n        match = RE_SEARCH_NEGATIVE_TIMESTAMP.search(date_string)\n    else:\n        match = RE_SEARCH_TIMESTAMP.search(date_string)", "    match = RE_SEARCH_NEGATIVE_TIMESTAMP.search(date_string) or RE_SEARCH_TIMESTAMP.search(date_string)")], "fire", "C01.R1"),
+    V("fraction-padded-to-5", "C01", [(STRP, "            match_groups = TIME_MATCHER.match(date_string).groupdict()\n            ms = match_groups[\"microsecond\"]\n            ms = ms + ((6 - len(ms)) * \"0\")", "            match_groups = TIME_MATCHER.match(date_string).groupdict()\n            ms = match_groups[\"microsecond\"]\n            ms = ms + ((5 - len(ms)) * \"0\")")], "fire", "C01.R2"),
+    V("weekday-table-sunday-first", "C01", [(STRP, '    _strptime.calendar.day_name = [\n        "monday",\n        "tuesday",\n        "wednesday",\n        "thursday",\n        "friday",\n        "saturday",\n        "sunday",\n    ]', '    _strptime.calendar.day_name = [\n        "sunday",\n        "monday",\n        "tuesday",\n        "wednesday",\n        "thursday",\n        "friday",\n        "saturday",\n    ]')], "fire", "C01.R3"),
+    V("english-abbreviation-moved", "C01", [(EN, '    "march": [\n        "mar",', '    "march": [')], "fire", "C01.R3"),
+    V("twin-micros-via-temporary", "C01", [(DATE, "        date_obj = datetime.fromtimestamp(seconds, timezone).replace(\n            microsecond=millis * 1000 + micros, tzinfo=None\n        )", "        date_obj = datetime.fromtimestamp(seconds, timezone).replace(\n            microsecond=micros + 1000 * millis, tzinfo=None\n        )")], "silent"),
+    )
+
+# ---------------------------------------------------------------- C05
+add("C05",
+    V("new-simplification-eats-month", "C05", [("dateparser/data/date_translation_data/de.py", '    "simplifications": [', '    "simplifications": [\n        {\n            "mai": "5"\n        },')], "fire", "C05.S-A"),
+    V("month-abbreviation-equals-hardcoded-token", "C05", [("dateparser/data/date_translation_data/en.py", '    "march": [\n        "mar",', '    "march": [\n        "z",\n        "mar",')], "fire", "C05.S"),
+    V("alternation-not-longest-first", "C05", [(DICT, "                value=sorted([key for key in self], key=len, reverse=True),", "                value=sorted([key for key in self]),")], "fire", "C05.R5"),
+    V("twin-fix-french-sept", "C05", [("dateparser/data/date_translation_data/fr.py", '        {\n            "sept": "7"\n        },\n', "")], "silent",
+      note="repaired twin of a known finding (data): silent = no NEW finding; the stale known entry is only a NOTE"),
+    )
+
+# ---------------------------------------------------------------- C06
+add("C06",
+    V("plural-canonical-key", "C06", [("dateparser/data/date_translation_data/fr.py", '        "in 2 day": [', '        "in 2 days": [')], "fire", "C06.R1"),
+    V("unknown-unit-in-key", "C06", [("dateparser/data/date_translation_data/fr.py", '        "2 day ago": [', '        "2 jour ago": [')], "fire", "C06.R1"),
+    V("number-not-group-1", "C06", [("dateparser/data/date_translation_data/en.py", '"(\\\\d+[.,]?\\\\d*) hr ago"', '"(about )?(\\\\d+[.,]?\\\\d*) hr ago"')], "fire", "C06.R2"),
+    V("pattern-does-not-compile", "C06", [("dateparser/data/date_translation_data/en.py", '"(\\\\d+[.,]?\\\\d*) hr ago"', '"(\\\\d+[.,]?\\\\d*) hr( ago"')], "fire", "C06.R2"),
+    V("counted-pattern-splits-phrase", "C06", [("dateparser/data/date_translation_data/en.py", '        "\\\\1 week ago": [', '        "sunday": [\n            "week"\n        ],\n        "\\\\1 week ago": [')], "fire", "C06.R4"),
+    V("phrase-lost-in-normalisation-conflict", "C06", [("dateparser/data/date_translation_data/en.py", '        "in 1 day": [\n            "tomorrow"', '        "in 1 day": [\n            "agó",\n            "tomorrow"')], "fire", "C06.R3"),
+    )
+
+# ---------------------------------------------------------------- C07
+add("C07",
+    V("chart-dmy-swapped", "C07", [(PARSER, '        "DMY": ["day", "month", "year"],', '        "DMY": ["month", "day", "year"],')], "fire", "C07.R1"),
+    V("chart-string-swapped", "C07", [(PARSER, '    "YDM": "%y%d%m",\n    "YMD": "%y%m%d",', '    "YDM": "%y%m%d",\n    "YMD": "%y%d%m",')], "fire", "C07.R1"),
+    V("locale-order-overrides-explicit", "C07", [(DATE, '                if "DATE_ORDER" not in self._settings._mod_settings:\n                    self._settings.DATE_ORDER = self.locale.info.get(\n                        "date_order", _order\n                    )', '                self._settings.DATE_ORDER = self.locale.info.get("date_order", _order)')], "fire", "C07.R2"),
+    V("locale-order-ignores-preference-flag", "C07", [(DATE, "            if self._settings.PREFER_LOCALE_DATE_ORDER:\n                if", "            if True:\n                if")], "fire", "C07.R2"),
+    V("order-not-from-settings", "C07", [(PARSER, "            for k in (resolve_date_order(settings.DATE_ORDER, lst=True))", '            for k in (resolve_date_order("MDY", lst=True))')], "fire", "C07.R3"),
+    V("year-pin-for-any-length", "C07", [(PARSER, '                if len(token) == 4 and res[0] == "year":', '                if res[0] == "year":')], "fire", "C07.R3"),
+    V("locale-with-invalid-order", "C07", [("dateparser/data/date_translation_data/fi.py", '"date_order": "DMY"', '"date_order": "DYM2"')], "fire", "C07.R1"),
+    V("nsp-sort-key-mismatch", "C07", [(PARSER, '            "%d%y%m": sorted(\n                self._all, key=lambda x: x.lower().startswith("%d%y%m"), reverse=True\n            ),', '            "%d%y%m": sorted(\n                self._all, key=lambda x: x.lower().startswith("%d%m%y"), reverse=True\n            ),')], "fire", "C07.R1"),
+    )
+
+# ---------------------------------------------------------------- C13
+add("C13",
+    V("defaults-before-requested", "C13", [(DATE, "        for locale in self._get_locale_loader().get_locales(\n            languages=self.languages,", "        if self._settings.DEFAULT_LANGUAGES:\n            for locale in self._get_locale_loader().get_locales(\n                languages=self._settings.DEFAULT_LANGUAGES,\n                locales=None,\n                region=self.region,\n                use_given_order=self.use_given_order,\n            ):\n                yield locale\n\n        for locale in self._get_locale_loader().get_locales(\n            languages=self.languages,")], "fire", "C13.R1"),
+    V("region-not-forwarded", "C13", [(DATE, "            languages=self.languages,\n            locales=self.locales,\n            region=self.region,", "            languages=self.languages,\n            locales=self.locales,\n            region=None,")], "fire", "C13.R1"),
+    V("reported-locale-is-language", "C13", [(DATE, '                parsed_date["locale"] = locale.shortname', '                parsed_date["locale"] = locale.info["name"]')], "fire", "C13.R2"),
+    V("given-order-always-sorted", "C13", [(LOADER, "        if not use_given_order:\n            locale_dict = OrderedDict(", "        if True:\n            locale_dict = OrderedDict(")], "fire", "C13.R3"),
+    V("languages-stored-wrong", "C13", [(DATE, "        self.locales = locales\n        self.region = region", "        self.locales = None\n        self.region = region")], "fire", "C13.R1"),
+    V("applicability-skipped", "C13", [(DATE, "            for s in date_strings():\n                if self._is_applicable_locale(locale, s):\n                    yield locale\n\n        if self._settings.DEFAULT_LANGUAGES:", "            yield locale\n\n        if self._settings.DEFAULT_LANGUAGES:")], "fire", "C13.R1"),
+    )
+
+# ---------------------------------------------------------------- C14
+add("C14",
+    V("formats-after-sanitize", "C14", [(DATE, "        res = parse_with_formats(date_string, date_formats or [], self._settings)\n        if res[\"date_obj\"]:\n            return res\n\n        date_string = sanitize_date(date_string)\n", "        date_string = sanitize_date(date_string)\n        res = parse_with_formats(date_string, date_formats or [], self._settings)\n        if res[\"date_obj\"]:\n            return res\n")], "fire", "C14.R1"),
+    V("localized-path-loses-formatting", "C14", [(DATE, "        return parse_with_formats(\n            self._get_translated_date_with_formatting(),", "        return parse_with_formats(\n            self._get_translated_date(),")], "fire", "C14.R3"),
+    V("keep-formatting-false", "C14", [(DATE, "                self.date_string, keep_formatting=True, settings=self._settings", "                self.date_string, keep_formatting=False, settings=self._settings")], "fire", "C14.R3"),
+    V("year-default-always", "C14", [(DATE, '            if "year" in missing_parts:\n                today = datetime.today()', "            if True:\n                today = datetime.today()")], "fire", "C14.R2"),
+    V("mismatch-stops-loop", "C14", [(DATE, "            date_obj = datetime.strptime(date_string, date_format)\n        except ValueError:\n            continue", "            date_obj = datetime.strptime(date_string, date_format)\n        except ValueError:\n            break")], "fire", "C14.R2"),
+    )
+
+# ---------------------------------------------------------------- C15
+JAL = "dateparser/calendars/jalali_parser.py"
+CAL = "dateparser/calendars/__init__.py"
+add("C15",
+    V("month-index-wrong", "C15", [(JAL, '("Mordad", (5, 31, ["امرداد", "مرداد"])),', '("Mordad", (6, 31, ["امرداد", "مرداد"])),')], "fire", "C15.R1"),
+    V("months-reordered", "C15", [(JAL, '            ("Mehr", (7, 30, ["مهر"])),\n            ("Aban", (8, 30, ["آبان"])),', '            ("Aban", (8, 30, ["آبان"])),\n            ("Mehr", (7, 30, ["مهر"])),')], "fire", "C15.R1"),
+    V("digit-table-wrong", "C15", [(JAL, '        "۸": 8,\n        "۹": 9,', '        "۸": 9,\n        "۹": 8,')], "fire", "C15.R1"),
+    V("days-before-weekdays", "C15", [(CAL, "        result = cls._replace_weekdays(result)\n        result = cls._replace_digits(result)\n        result = cls._replace_days(result)", "        result = cls._replace_days(result)\n        result = cls._replace_weekdays(result)\n        result = cls._replace_digits(result)")], "fire", "C15.R2"),
+    V("thirteen-thirty-not-swapped", "C15", [(JAL, '        30: ["سی"],\n        31: ["سی و یک"],', '        30: ["سی"],\n        31: ["سی و یک"],\n        32: ["سی و دو"],')], "fire", "C15.R1"),
+    V("month-day-swapped-into-converter", "C15", [(CAL, "            year=year, month=month, day=day\n        )\n        c_params", "            year=year, month=day, day=month\n        )\n        c_params")], "fire", "C15.R3"),
+    V("time-dropped", "C15", [(CAL, "        c_params = params.copy()\n        c_params.update(dict(year=year, month=month, day=day))\n        return datetime(**c_params)", "        return datetime(year=year, month=month, day=day)")], "fire", "C15.R3"),
+    V("weekday-shadowing", "C15", [(JAL, '            ("Saturday", ["روز شنبه", "شنبه"]),\n', ""), (JAL, '            ("Sunday", ["یکشنبه"]),', '            ("Saturday", ["روز شنبه", "شنبه"]),\n            ("Sunday", ["یکشنبه"]),')], "fire", "C15.R2"),
+    )
+
+# ---------------------------------------------------------------- C18
+add("C18",
+    V("period-regex-ascii-digits", "C18", [(DATE, 'RE_SANITIZE_PERIOD = re.compile(r"(?<=[^\\d\\s])\\.", flags=re.U)', 'RE_SANITIZE_PERIOD = re.compile(r"(?<=[^0-9\\s])\\.", flags=re.U)')], "fire", "C18.R1"),
+    V("croatian-regex-ascii-digits", "C18", [(DATE, 'r"(\\d+)\\.\\s?(\\d+)\\.\\s?(\\d+)\\.( u)?"', 'r"([0-9]+)\\.\\s?([0-9]+)\\.\\s?([0-9]+)\\.( u)?"')], "fire", "C18.R1"),
+    V("new-raw-regex-with-ascii-class", "C18", [(DATE, "    date_string = RE_SANITIZE_ON.sub(r\"\\1\", date_string)\n", "    date_string = RE_SANITIZE_ON.sub(r\"\\1\", date_string)\n    date_string = re.sub(r\"(?<=[0-9])(st|nd|rd|th)\\b\", \"\", date_string)\n")], "fire", "C18.R1"),
+    V("numerals-after-simplify", "C18", [(LOCALE, "        date_string = self._translate_numerals(date_string)\n        if settings.NORMALIZE:\n            date_string = normalize_unicode(date_string)\n        date_string = self._simplify(date_string, settings=settings)\n        dictionary = self._get_dictionary(settings)\n        date_string_tokens = dictionary.split(date_string, keep_formatting)",
+                                          "        if settings.NORMALIZE:\n            date_string = normalize_unicode(date_string)\n        date_string = self._simplify(date_string, settings=settings)\n        date_string = self._translate_numerals(date_string)\n        dictionary = self._get_dictionary(settings)\n        date_string_tokens = dictionary.split(date_string, keep_formatting)")], "fire", "C18.R2"),
+    V("isdigit-instead-of-isdecimal", "C18", [(LOCALE, "            if token.isdecimal():", "            if token.isdigit():")], "fire", "C18.R2"),
+    V("twin-digit-class-spelled-differently", "C18", [(DATE, 'RE_SANITIZE_PERIOD = re.compile(r"(?<=[^\\d\\s])\\.", flags=re.U)', 'RE_SANITIZE_PERIOD = re.compile(r"(?<![\\d\\s])(?<=.)\\.", flags=re.U)')], "silent"),
+    )
